@@ -56,15 +56,24 @@ fn parse_first_allele(src: &mut &str) -> io::Result<(Option<usize>, Phasing)> {
 fn parse_allele(src: &mut &str) -> io::Result<(Option<usize>, Phasing)> {
     let buf = next_allele(src);
 
-    let phasing = parse_phasing(&buf[..1])?;
-    let position = parse_position(&buf[1..])?;
+    let (raw_phasing, raw_position) = buf
+        .split_at_checked(1)
+        .ok_or_else(|| io::Error::new(io::ErrorKind::InvalidData, "invalid phasing"))?;
+
+    let phasing = parse_phasing(raw_phasing)?;
+    let position = parse_position(raw_position)?;
 
     Ok((position, phasing))
 }
 
 fn next_allele<'a>(src: &mut &'a str) -> &'a str {
-    let (buf, rest) = match src.chars().skip(1).position(is_phasing_indicator) {
-        Some(i) => src.split_at(i + 1),
+    // Byte offsets, not character counts: the input is not necessarily ASCII.
+    let (buf, rest) = match src
+        .char_indices()
+        .skip(1)
+        .find(|(_, c)| is_phasing_indicator(*c))
+    {
+        Some((i, _)) => src.split_at(i),
         None => src.split_at(src.len()),
     };
 
